@@ -632,6 +632,17 @@ func (w *vtWorld) newCaller(key string, holdMs, outcome int) *vtCaller {
 	return c
 }
 
+// newCallerDeadline registers a caller whose context carries a deadline (context.WithDeadline) instead of
+// being cancelled by hand: the context is done from that instant on.
+func (w *vtWorld) newCallerDeadline(key string, at time.Time) *vtCaller {
+	ctx, cancel := context.WithDeadline(stackKeyCtx(context.Background(), key), at)
+	c := &vtCaller{ID: len(w.callers), Key: key, ctx: ctx, cancel: cancel}
+	w.mu.Lock()
+	w.callers = append(w.callers, c)
+	w.mu.Unlock()
+	return c
+}
+
 // start launches the caller's Acquire in its own goroutine.
 func (w *vtWorld) start(c *vtCaller) {
 	c.Arrived = w.now()
